@@ -249,7 +249,7 @@ func c09Check(c C09Case, cx *h.Ctx) *h.Failure {
 func TestC09(t *testing.T) {
 	h.Run(t, h.Prop[C09Case]{
 		ID:          "C09",
-		Rule:        "cases = the C01 pair generator (all 7x7 type pairs, collections with overlapping members, empty members, points exactly on edges/vertices, polygons in holes, collinear overlaps) plus a third geometry, and (1 in 10) a dense family: zig-zag lines / many short segments / many points with 20..300 (thorough 2000) primitives per operand so that the R-tree pruning decides. Oracles: exact Intersects (any exact segment-pair intersection or a vertex of one located in the other); exact minimum squared distance over all primitive pairs in rational arithmetic, square root at 200 bits (float brute force for the dense family); checks: Intersects symmetric, = not Disjoint, = Intersection non-empty (strict domain), Distance symmetric, defined iff both non-empty, zero iff exact intersects, within 1e-9 x magnitude of the exact value, >= envelope distance, d(a,c) <= d(a,b)+diam(b)+d(b,c); non-trivial = both non-empty and envelopes overlap (early exits do not decide), or the dense family",
+		Rule:        "cases = the C01 pair generator (all 7x7 type pairs, collections with overlapping members, empty members, points exactly on edges/vertices, polygons in holes, collinear overlaps) plus a third geometry, and (1 in 10) a dense family: zig-zag lines / many short segments / many points with 20..300 (thorough 2000) primitives per operand so that the R-tree pruning decides. Oracles: exact Intersects (any exact segment-pair intersection or a vertex of one located in the other); exact minimum squared distance over all primitive pairs in rational arithmetic, square root at 200 bits (float brute force for the dense family); checks: Intersects symmetric, = not Disjoint, = Intersection non-empty (strict domain), Distance symmetric, defined iff both non-empty, zero iff exact intersects, within 1e-9 x magnitude of the exact value, >= envelope distance, d(a,c) <= d(a,b)+diam(b)+d(b,c); non-trivial = both non-empty and envelopes overlap (early exits do not decide), or the dense family Families of the shared pair generator: triangulated integer grids that coincide / are offset by half a cell / are shifted, under an injective integer map and optionally an exact dyadic affine image; hole-nesting (annulus, island, covering members, far-away decoy members in front of the deciding one); general-position floats (random 53-bit mantissas in a window - crossing points not representable); concurrent (3..14 integer segments through one non-lattice point, dyadic or not).",
 		Assumptions: []string{"exact kernel (internal/exact)", "float64 brute force is accurate to 1e-12 relative for the dense family (integer inputs)"},
 		Gen:         c09Gen,
 		Check:       c09Check,
